@@ -62,6 +62,7 @@ func cmdFuncs(args []string) int {
 	repo := fs.String("repo", "/repo", "repository")
 	tags := fs.String("tags", "verif", "build tags")
 	pat := fs.String("match", "", "substring filter")
+	sticky := fs.Bool("sticky", false, "only functions with a *proto.Reader parameter and an error result")
 	fs.Parse(args)
 	p, err := LoadProgram(*repo, *tags, []string{"./proto", "./compress", ".", "./chpool"})
 	if err != nil {
@@ -71,6 +72,15 @@ func cmdFuncs(args []string) int {
 	var ks []string
 	for k := range p.Funcs {
 		if strings.HasPrefix(k, repoModule) && strings.Contains(k, *pat) {
+			fn := p.Funcs[k]
+			if *sticky {
+				if _, _, ok := stickySig(fn.Signature, true); !ok || fn.Blocks == nil {
+					continue
+				}
+			}
+			if strings.Contains(k, "_test") || strings.HasSuffix(fn.Prog.Fset.Position(fn.Pos()).Filename, "_test.go") {
+				continue
+			}
 			ks = append(ks, ShortKey(k))
 		}
 	}
@@ -126,6 +136,7 @@ func cmdVerify(args []string) int {
 	outDir := filepath.Join(*verif, "out")
 	solver := NewSolver(filepath.Join(outDir, "smt", pf.ID), timeout, seed)
 	var all []*Obligation
+	var covers []*Cover
 	var undecided []string
 	assumptions := map[string]bool{}
 	funcsDone := []string{}
@@ -172,6 +183,7 @@ func cmdVerify(args []string) int {
 		for a := range ex.Assumptions {
 			assumptions[a] = true
 		}
+		covers = append(covers, ex.Covers...)
 	}
 	// solve (identical scripts are solved once)
 	var wg sync.WaitGroup
@@ -194,10 +206,69 @@ func cmdVerify(args []string) int {
 			o.Res = solver.Solve(o.Script)
 		}(o)
 	}
+	// vacuity covers: per function/case, stop at the first satisfiable return path
+	coverOK := map[string]string{}
+	var cmu sync.Mutex
+	byFn := map[string][]*Cover{}
+	var fnOrder []string
+	for _, c := range covers {
+		k := c.Func + "/" + c.Case
+		if _, ok := byFn[k]; !ok {
+			fnOrder = append(fnOrder, k)
+		}
+		byFn[k] = append(byFn[k], c)
+	}
+	for _, k := range fnOrder {
+		wg.Add(1)
+		sem <- struct{}{}
+		go func(k string) {
+			defer wg.Done()
+			defer func() { <-sem }()
+			res := "unsat"
+			for i, c := range byFn[k] {
+				if i >= 6 {
+					break
+				}
+				r := solver.Solve(c.Script)
+				if r.Answer != "unsat" {
+					res = r.Answer
+					break
+				}
+			}
+			cmu.Lock()
+			coverOK[k] = res
+			cmu.Unlock()
+		}(k)
+	}
 	wg.Wait()
 	for _, o := range all {
 		if !o.Trivial {
 			o.Res = first[o.Script].Res
+		}
+	}
+	for _, k := range fnOrder {
+		if coverOK[k] == "unsat" {
+			undecided = append(undecided, "vacuous: no return of "+ShortKey(k)+" is reachable under its preconditions")
+		}
+	}
+	if os.Getenv("GOVC_STATS") != "" {
+		cnt := map[string]int{}
+		for _, o := range all {
+			cnt[o.Func]++
+		}
+		type kv struct {
+			k string
+			v int
+		}
+		var kvs []kv
+		for k, v := range cnt {
+			kvs = append(kvs, kv{k, v})
+		}
+		sort.Slice(kvs, func(i, j int) bool { return kvs[i].v > kvs[j].v })
+		for i, x := range kvs {
+			if i < 15 {
+				fmt.Printf("stats: %6d instances %s\n", x.v, ShortKey(x.k))
+			}
 		}
 	}
 	if os.Getenv("GOVC_SLOW") != "" {
@@ -271,7 +342,7 @@ func cmdVerify(args []string) int {
 }
 
 func propMatches(props []string, id string) bool {
-	if len(props) == 0 {
+	if len(props) == 0 || id == "DEV" {
 		return true
 	}
 	for _, p := range props {
